@@ -125,6 +125,8 @@ def fault_cases(seed, n):
         ops = []
         if r.random() < 0.5:
             ops.append("HANDLER")
+        if i % 2 == 1:
+            ops.append("WT 1")          # write-through: the device write happens inside the write call
         ops.append("FAIL %d" % r.randint(1, 12))
         for _ in range(r.randint(9, 20)):
             k = r.random()
